@@ -3,6 +3,7 @@ package main
 // C19 end-to-end scenarios: echo + ProxyWithConfig in front of instrumented upstream servers.
 
 import (
+	"bufio"
 	"bytes"
 	"context"
 	"fmt"
@@ -12,6 +13,7 @@ import (
 	"net/http"
 	"net/http/httptest"
 	"net/url"
+	"regexp"
 	"sort"
 	"strings"
 	"sync"
@@ -57,14 +59,32 @@ func c19GenReal(r *rand.Rand, tier string) *c19Case {
 	for i := range c.Steps {
 		if rq := c.Steps[i].Req; rq != nil {
 			rq.Canceled = false
+			if rq.Host != "" {
+				rq.Scheme = "http" // an https target would make the client CONNECT
+				if !strings.HasPrefix(rq.URI, "/") {
+					rq.URI = "/" + rq.URI // net/http's client never sends an empty path
+				}
+				if k := strings.LastIndex(rq.Host, "@"); k >= 0 {
+					rq.Host = rq.Host[k+1:] // net/http's client turns userinfo into an Authorization header
+				}
+			}
+			rq.WS = r.Intn(5) == 0
+			if rq.WS {
+				// websocket upgrade over a plain TCP connection: Body / Resp.Body travel through the tunnel
+				rq.Method, rq.Scheme, rq.Host = "GET", "", ""
+				rq.Body, rq.Resp.Body = c19GenBytes(r, "quick"), c19GenBytes(r, "quick")
+				if r.Intn(4) == 0 {
+					rq.Body = nil
+				}
+			}
 			if len(rq.Body) > 8192 {
 				rq.Body = rq.Body[:8192]
 			}
-			if r.Intn(2) == 0 && len(rq.Body) == 0 {
+			if r.Intn(2) == 0 && len(rq.Body) == 0 && !rq.WS {
 				rq.Method = "POST"
 				rq.Body = []byte("payload")
 			}
-			if rq.Method == "GET" || rq.Method == "HEAD" || rq.Method == "OPTIONS" {
+			if (rq.Method == "GET" || rq.Method == "HEAD" || rq.Method == "OPTIONS") && !rq.WS {
 				rq.Body = nil
 			}
 			// hop-by-hop request headers are consumed by the front server / real client here
@@ -86,6 +106,7 @@ type c19Hit struct {
 	uri    string
 	header http.Header
 	body   []byte
+	ws     bool
 }
 
 type c19Pool struct {
@@ -95,6 +116,7 @@ type c19Pool struct {
 	mu      sync.Mutex
 	hits    []c19Hit
 	script  c19Resp
+	wsLen   int
 	err     string
 }
 
@@ -102,6 +124,43 @@ var (
 	c19PoolOnce sync.Once
 	c19ThePool  *c19Pool
 )
+
+const c19IOTimeout = 20 * time.Second
+
+// websocket side of an upstream: answer 101 (+ marker + scripted headers), read the scripted number
+// of bytes from the tunnel, log the hit, send the scripted bytes back and close
+func (p *c19Pool) serveWS(slot int, w http.ResponseWriter, r *http.Request) {
+	hj, ok := w.(http.Hijacker)
+	if !ok {
+		w.WriteHeader(598)
+		return
+	}
+	conn, buf, err := hj.Hijack()
+	if err != nil {
+		return
+	}
+	defer conn.Close()
+	p.mu.Lock()
+	sc, n := p.script, p.wsLen
+	p.mu.Unlock()
+	conn.SetDeadline(time.Now().Add(c19IOTimeout))
+	var sb strings.Builder
+	sb.WriteString("HTTP/1.1 101 Switching Protocols\r\nUpgrade: websocket\r\nConnection: Upgrade\r\n")
+	fmt.Fprintf(&sb, "%s: %d\r\n", c19Marker, slot)
+	for _, kv := range sc.Headers {
+		fmt.Fprintf(&sb, "%s: %s\r\n", kv[0], kv[1])
+	}
+	sb.WriteString("\r\n")
+	buf.WriteString(sb.String())
+	buf.Flush()
+	got := make([]byte, n)
+	m, _ := io.ReadFull(buf, got)
+	p.mu.Lock()
+	p.hits = append(p.hits, c19Hit{slot, r.Method, r.RequestURI, r.Header.Clone(), got[:m], true})
+	p.mu.Unlock()
+	buf.Write(sc.Body)
+	buf.Flush()
+}
 
 // 4 upstream servers that live as long as the harness process, and 4 loopback ports below the
 // ephemeral range on which nothing listens (connection refused = unreachable target; ports of
@@ -112,6 +171,10 @@ func c19GetPool() *c19Pool {
 		for i := 0; i < c19Slots; i++ {
 			slot := i
 			p.servers[i] = httptest.NewServer(http.HandlerFunc(func(w http.ResponseWriter, r *http.Request) {
+				if strings.EqualFold(r.Header.Get("Upgrade"), "websocket") {
+					p.serveWS(slot, w, r)
+					return
+				}
 				body, err := io.ReadAll(r.Body)
 				if err != nil {
 					// a request whose body breaks off is not logged: when the proxy aborts an attempt the
@@ -121,7 +184,7 @@ func c19GetPool() *c19Pool {
 					return
 				}
 				p.mu.Lock()
-				p.hits = append(p.hits, c19Hit{slot, r.Method, r.RequestURI, r.Header.Clone(), body})
+				p.hits = append(p.hits, c19Hit{slot, r.Method, r.RequestURI, r.Header.Clone(), body, false})
 				sc := p.script
 				p.mu.Unlock()
 				w.Header().Set(c19Marker, fmt.Sprint(slot))
@@ -155,10 +218,11 @@ func c19GetPool() *c19Pool {
 	return c19ThePool
 }
 
-func (p *c19Pool) arm(sc c19Resp) {
+func (p *c19Pool) arm(sc c19Resp, wsLen int) {
 	p.mu.Lock()
 	p.hits = nil
 	p.script = sc
+	p.wsLen = wsLen
 	p.mu.Unlock()
 }
 
@@ -170,21 +234,78 @@ func (p *c19Pool) taken() []c19Hit {
 	return h
 }
 
+// what the callbacks of one request saw
+type c19FCall struct {
+	err    int // class of the error passed in (see c19ErrClass)
+	answer bool
+	key    any // c.Get(ContextKey) at that moment
+	npicks int // Next/NextTarget results so far
+}
+
+type c19Calls struct {
+	mu       sync.Mutex
+	picks    []*middleware.ProxyTarget
+	filter   []c19FCall
+	handler  []c19FCall
+	provN    int      // NextTarget calls
+	provErrs []int    // script of the current request
+	nextN    int      // calls of the handler behind the middleware
+	trips    []string // hosts addressed by the round trips of the logging Transport
+	keyAfter any      // c.Get(ContextKey) when the middleware returned
+	keySeen  bool
+	done     chan struct{} // signalled when the middleware chain of a request has returned
+}
+
+// -1: not an *echo.HTTPError, else its code
+func c19ErrClass(err error) int {
+	if he, ok := err.(*echo.HTTPError); ok {
+		return he.Code
+	}
+	return -1
+}
+
+func c19EncErr(class int) string {
+	if class < 0 {
+		return "o"
+	}
+	return fmt.Sprintf("h%d", class)
+}
+
 // balancer wrapper that records what the real balancer returned to the proxy
 type c19RecBal struct {
 	inner middleware.ProxyBalancer
-	mu    sync.Mutex
-	picks []*middleware.ProxyTarget
+	calls *c19Calls
 }
 
 func (b *c19RecBal) AddTarget(t *middleware.ProxyTarget) bool { return b.inner.AddTarget(t) }
 func (b *c19RecBal) RemoveTarget(n string) bool               { return b.inner.RemoveTarget(n) }
 func (b *c19RecBal) Next(c echo.Context) *middleware.ProxyTarget {
 	t := b.inner.Next(c)
-	b.mu.Lock()
-	b.picks = append(b.picks, t)
-	b.mu.Unlock()
+	b.calls.mu.Lock()
+	b.calls.picks = append(b.calls.picks, t)
+	b.calls.mu.Unlock()
 	return t
+}
+
+// the same, as a TargetProvider that answers scripted errors
+type c19RecProv struct{ *c19RecBal }
+
+func (b *c19RecProv) NextTarget(c echo.Context) (*middleware.ProxyTarget, error) {
+	b.calls.mu.Lock()
+	k := b.calls.provN
+	b.calls.provN++
+	code := 0
+	if k < len(b.calls.provErrs) {
+		code = b.calls.provErrs[k]
+	}
+	b.calls.mu.Unlock()
+	switch {
+	case code < 0:
+		return nil, fmt.Errorf("c19: provider error")
+	case code > 0:
+		return nil, echo.NewHTTPError(code, "c19: provider error")
+	}
+	return b.c19RecBal.Next(c), nil
 }
 
 var c19HopByHop = map[string]bool{
@@ -234,6 +355,77 @@ func c19SameVals(a, b []string) bool {
 	return true
 }
 
+const c19SkipHeader = "X-C19-Skip"
+
+// ProxyConfig.Transport that logs which host every round trip of the reverse proxy addressed
+type c19LogRT struct {
+	inner http.RoundTripper
+	calls *c19Calls
+}
+
+func (t *c19LogRT) RoundTrip(r *http.Request) (*http.Response, error) {
+	t.calls.mu.Lock()
+	t.calls.trips = append(t.calls.trips, r.URL.Host)
+	t.calls.mu.Unlock()
+	return t.inner.RoundTrip(r)
+}
+
+// the websocket client got no HTTP answer at all
+type c19Dropped string
+
+// the regexp rewriteRulesRegex documents for a glob rule (used when a rule is handed to the proxy
+// through ProxyConfig.RegexRewrite instead of ProxyConfig.Rewrite)
+func c19GlobRegexp(pat string) *regexp.Regexp {
+	k := regexp.QuoteMeta(pat)
+	k = strings.ReplaceAll(k, `\*`, "(.*?)")
+	if strings.HasPrefix(k, `\^`) {
+		k = strings.ReplaceAll(k, `\^`, "^")
+	}
+	return regexp.MustCompile(k + "$")
+}
+
+// websocket client over a plain TCP connection: sends the upgrade request, and after a 101 the
+// payload; returns status, headers and everything the server sent after the header block
+func c19WSClient(addr string, rq *c19Req) (*httptest.ResponseRecorder, error) {
+	conn, err := net.DialTimeout("tcp", addr, c19IOTimeout)
+	if err != nil {
+		return nil, err
+	}
+	defer conn.Close()
+	conn.SetDeadline(time.Now().Add(c19IOTimeout))
+	var sb strings.Builder
+	fmt.Fprintf(&sb, "%s %s HTTP/1.1\r\nHost: front.test\r\n", rq.Method, rq.URI)
+	for _, kv := range rq.Headers {
+		fmt.Fprintf(&sb, "%s: %s\r\n", kv[0], kv[1])
+	}
+	sb.WriteString("Connection: Upgrade\r\nUpgrade: websocket\r\nSec-WebSocket-Version: 13\r\nSec-WebSocket-Key: dmVyaWYtYzE5LWtleS0wMDE=\r\n\r\n")
+	if _, err := io.WriteString(conn, sb.String()); err != nil {
+		return nil, err
+	}
+	br := bufio.NewReader(conn)
+	resp, err := http.ReadResponse(br, nil)
+	if err != nil {
+		return nil, fmt.Errorf("no HTTP response on the connection: %v", err)
+	}
+	w := httptest.NewRecorder()
+	for k, vs := range resp.Header {
+		w.Header()[k] = vs
+	}
+	w.Code = resp.StatusCode
+	if resp.StatusCode == http.StatusSwitchingProtocols {
+		if _, err := conn.Write(rq.Body); err != nil {
+			return nil, err
+		}
+		b, _ := io.ReadAll(br) // until the tunnel is closed
+		w.Body.Write(b)
+		return w, nil
+	}
+	b, _ := io.ReadAll(resp.Body)
+	resp.Body.Close()
+	w.Body.Write(b)
+	return w, nil
+}
+
 func c19RunE2E(c *c19Case) (res Result) {
 	p := c19GetPool()
 	if p.err != "" {
@@ -255,22 +447,144 @@ func c19RunE2E(c *c19Case) (res Result) {
 		init = append(init, mk(t))
 	}
 	sh.cur = append(sh.cur, init...)
-	rec := &c19RecBal{inner: c19NewBalancer(c.RR, append([]*middleware.ProxyTarget(nil), init...))}
-	cfg := middleware.ProxyConfig{Balancer: rec, RetryCount: c.Retry}
-	if len(c.Rules) > 0 {
-		cfg.Rewrite = map[string]string{}
-		for _, r := range c.Rules {
-			cfg.Rewrite[r.Pat] = r.Tmpl
-		}
+	calls := &c19Calls{done: make(chan struct{}, 1)}
+	rec := &c19RecBal{inner: c19NewBalancer(c.RR, append([]*middleware.ProxyTarget(nil), init...)), calls: calls}
+	var bal middleware.ProxyBalancer = rec
+	if c.Provider {
+		bal = &c19RecProv{rec}
 	}
-	e := echo.New()
-	e.Use(middleware.ProxyWithConfig(cfg))
 
-	retry := c.Retry
+	// ---- the configuration in force
+	viaProxy := c.Ctor == 1
+	retry, rules, filter, handler, skipper, key := c.Retry, c.Rules, c.Filter, c.Handler, c.Skipper, c.CtxKey
+	if viaProxy {
+		retry, rules, filter, handler, skipper, key = 0, nil, nil, 0, false, "target"
+	}
 	if retry < 0 {
 		retry = 0
 	}
-	ops := []string{"1", wBool(c.RR), wInt(retry), c19EncTargets(c.Init), wInt(len(c.Alive))}
+	var baseTr *http.Transport
+	if !viaProxy && c.Transport != 0 {
+		baseTr = &http.Transport{DisableKeepAlives: true}
+		defer baseTr.CloseIdleConnections()
+	}
+	mkMW := func() echo.MiddlewareFunc {
+		if viaProxy {
+			return middleware.Proxy(bal)
+		}
+		{
+			cfg := middleware.ProxyConfig{Balancer: bal, RetryCount: c.Retry, ContextKey: key}
+			for j, r := range rules {
+				if c.RegexCfg && j%2 == 1 {
+					if cfg.RegexRewrite == nil {
+						cfg.RegexRewrite = map[*regexp.Regexp]string{}
+					}
+					cfg.RegexRewrite[c19GlobRegexp(r.Pat)] = r.Tmpl
+					continue
+				}
+				if cfg.Rewrite == nil {
+					cfg.Rewrite = map[string]string{}
+				}
+				cfg.Rewrite[r.Pat] = r.Tmpl
+			}
+			if filter != nil {
+				f := filter
+				cfg.RetryFilter = func(ec echo.Context, err error) bool {
+					calls.mu.Lock()
+					defer calls.mu.Unlock()
+					k := len(calls.filter)
+					ans := false
+					switch f.Kind {
+					case 1:
+						ans = f.Rest
+						if k < len(f.Answers) {
+							ans = f.Answers[k]
+						}
+					case 2:
+						cl := c19ErrClass(err)
+						for _, x := range f.Codes {
+							if x == cl {
+								ans = true
+							}
+						}
+					}
+					calls.filter = append(calls.filter, c19FCall{c19ErrClass(err), ans, ec.Get(key), len(calls.picks)})
+					return ans
+				}
+			}
+			if handler != 0 {
+				cfg.ErrorHandler = func(ec echo.Context, err error) error {
+					calls.mu.Lock()
+					calls.handler = append(calls.handler, c19FCall{c19ErrClass(err), false, ec.Get(key), len(calls.picks)})
+					calls.mu.Unlock()
+					if handler < 0 {
+						return ec.String(http.StatusNonAuthoritativeInfo, "handled")
+					}
+					return echo.NewHTTPError(handler, "c19: mapped")
+				}
+			}
+			if skipper {
+				cfg.Skipper = func(ec echo.Context) bool { return ec.Request().Header.Get(c19SkipHeader) != "" }
+			}
+			switch c.Transport {
+			case 1:
+				cfg.Transport = baseTr
+			case 2:
+				cfg.Transport = &c19LogRT{baseTr, calls}
+			}
+			return middleware.ProxyWithConfig(cfg)
+		}
+	}
+	mkEcho := func() *echo.Echo {
+		mw := mkMW()
+		e := echo.New()
+		e.Logger.SetOutput(io.Discard)
+		// outer middleware: looks at the context after the proxy middleware returned
+		e.Use(func(next echo.HandlerFunc) echo.HandlerFunc {
+			return func(ec echo.Context) error {
+				err := next(ec)
+				calls.mu.Lock()
+				calls.keyAfter, calls.keySeen = ec.Get(key), true
+				calls.mu.Unlock()
+				select {
+				case calls.done <- struct{}{}:
+				default:
+				}
+				return err
+			}
+		})
+		e.Use(mw)
+		// what a skipped request falls through to
+		e.Any("/*", func(ec echo.Context) error {
+			calls.mu.Lock()
+			calls.nextN++
+			calls.mu.Unlock()
+			return ec.String(299, "next")
+		})
+		return e
+	}
+	insts := []*echo.Echo{mkEcho()}
+	if c.TwoInst {
+		insts = append(insts, mkEcho())
+	}
+
+	ops := []string{"1", wBool(c.RR), wBool(viaProxy), wInt(retry), wBool(c.Provider)}
+	switch {
+	case c.Filter == nil:
+		ops = append(ops, "0")
+	case c.Filter.Kind == 1:
+		ops = append(ops, "1", wInt(len(c.Filter.Answers)))
+		for _, a := range c.Filter.Answers {
+			ops = append(ops, wBool(a))
+		}
+		ops = append(ops, wBool(c.Filter.Rest))
+	default:
+		ops = append(ops, "2", wInt(len(c.Filter.Codes)))
+		for _, x := range c.Filter.Codes {
+			ops = append(ops, wInt(x))
+		}
+	}
+	ops = append(ops, wBool(c.Skipper), c19EncTargets(c.Init), wInt(len(c.Alive)))
 	for _, a := range c.Alive {
 		ops = append(ops, wBool(a))
 	}
@@ -298,13 +612,20 @@ func c19RunE2E(c *c19Case) (res Result) {
 	tagset := map[string]bool{}
 	window := map[*middleware.ProxyTarget]int{}
 	nontrivial := false
-	var front *httptest.Server
+	var fronts []*httptest.Server
 	var client *http.Client
+	var absClients []*http.Client
 	if c.Kind == 5 {
-		front = httptest.NewServer(e)
-		defer front.Close()
-		client = &http.Client{Transport: &http.Transport{DisableKeepAlives: true},
-			CheckRedirect: func(*http.Request, []*http.Request) error { return http.ErrUseLastResponse }}
+		noRedirect := func(*http.Request, []*http.Request) error { return http.ErrUseLastResponse }
+		client = &http.Client{Transport: &http.Transport{DisableKeepAlives: true}, CheckRedirect: noRedirect}
+		for _, e := range insts {
+			front := httptest.NewServer(e)
+			defer front.Close()
+			fronts = append(fronts, front)
+			fu, _ := url.Parse(front.URL)
+			// a client that talks to echo as to a forward proxy sends request targets in absolute form
+			absClients = append(absClients, &http.Client{Transport: &http.Transport{DisableKeepAlives: true, Proxy: http.ProxyURL(fu)}, CheckRedirect: noRedirect})
+		}
 	}
 
 	for i, st := range c.Steps {
@@ -344,29 +665,65 @@ func c19RunE2E(c *c19Case) (res Result) {
 			continue
 		}
 		// ---- one proxied request
-		p.arm(rq.Resp)
-		rec.mu.Lock()
-		rec.picks = nil
-		rec.mu.Unlock()
+		wsLen := 0
+		if rq.WS {
+			wsLen = len(rq.Body)
+		}
+		p.arm(rq.Resp, wsLen)
+		calls.mu.Lock()
+		calls.picks, calls.filter, calls.handler, calls.provN, calls.nextN, calls.trips = nil, nil, nil, 0, 0, nil
+		calls.provErrs = rq.ProvErr
+		calls.keyAfter, calls.keySeen = nil, false
+		calls.mu.Unlock()
 		var rr *httptest.ResponseRecorder
 		var panicked any
-		bodyOnce := c.Kind == 5 && len(rq.Body) > 0
+		abs := rq.Host != ""
+		hijackable := c.Kind == 5
+		bodyOnce := c.Kind == 5 && len(rq.Body) > 0 && !rq.WS
+		inst := 0
+		if rq.Inst == 1 && len(insts) > 1 {
+			inst = 1
+		}
+		e := insts[inst]
+		var front *httptest.Server
+		var absClient *http.Client
+		if c.Kind == 5 {
+			front, absClient = fronts[inst], absClients[inst]
+		}
+		hdrs := rq.Headers
+		if rq.Skip {
+			hdrs = append(append([][2]string(nil), hdrs...), [2]string{c19SkipHeader, "1"})
+		}
 		func() {
 			defer func() { panicked = recover() }()
 			var body io.Reader
-			if len(rq.Body) > 0 {
+			if len(rq.Body) > 0 && !rq.WS {
 				body = bytes.NewReader(rq.Body)
+			}
+			if c.Kind == 5 && rq.WS {
+				q := *rq
+				q.Headers = hdrs
+				w, err := c19WSClient(front.Listener.Addr().String(), &q)
+				if err != nil {
+					panic(c19Dropped(fmt.Sprintf("the client's connection was dropped without an answer (%v)", err)))
+				}
+				rr = w
+				return
 			}
 			if c.Kind == 5 {
 				// through a real http.Server and TCP: the request body is net/http's server body
-				req, err := http.NewRequest(rq.Method, front.URL+rq.URI, body)
+				target, cl := front.URL+rq.URI, client
+				if abs {
+					target, cl = rq.Scheme+"://"+rq.Host+rq.URI, absClient
+				}
+				req, err := http.NewRequest(rq.Method, target, body)
 				if err != nil {
 					panic(err)
 				}
-				for _, kv := range rq.Headers {
+				for _, kv := range hdrs {
 					req.Header.Add(kv[0], kv[1])
 				}
-				resp, err := client.Do(req)
+				resp, err := cl.Do(req)
 				if err != nil {
 					panic(fmt.Sprintf("client error (server side panic?): %v", err))
 				}
@@ -381,9 +738,17 @@ func c19RunE2E(c *c19Case) (res Result) {
 				rr = w
 				return
 			}
-			req := httptest.NewRequest(rq.Method, rq.URI, body)
-			for _, kv := range rq.Headers {
+			target := rq.URI
+			if abs {
+				target = rq.Scheme + "://" + rq.Host + rq.URI
+			}
+			req := httptest.NewRequest(rq.Method, target, body)
+			for _, kv := range hdrs {
 				req.Header.Add(kv[0], kv[1])
+			}
+			if rq.WS {
+				req.Header.Set("Connection", "Upgrade")
+				req.Header.Set("Upgrade", "websocket")
 			}
 			if rq.Canceled {
 				ctx, cancel := context.WithCancel(req.Context())
@@ -394,10 +759,26 @@ func c19RunE2E(c *c19Case) (res Result) {
 			e.ServeHTTP(w, req)
 			rr = w
 		}()
+		if c.Kind == 5 {
+			// the client may have its answer before the server side handler has returned
+			select {
+			case <-calls.done:
+			case <-time.After(c19IOTimeout):
+			}
+		} else {
+			select {
+			case <-calls.done:
+			default:
+			}
+		}
 		hits := p.taken()
-		rec.mu.Lock()
-		picks := append([]*middleware.ProxyTarget(nil), rec.picks...)
-		rec.mu.Unlock()
+		calls.mu.Lock()
+		picks := append([]*middleware.ProxyTarget(nil), calls.picks...)
+		fcalls := append([]c19FCall(nil), calls.filter...)
+		hcalls := append([]c19FCall(nil), calls.handler...)
+		provN, nextN, keyAfter, keySeen := calls.provN, calls.nextN, calls.keyAfter, calls.keySeen
+		trips := append([]string(nil), calls.trips...)
+		calls.mu.Unlock()
 
 		var hints []string
 		if !c.RR {
@@ -407,44 +788,140 @@ func c19RunE2E(c *c19Case) (res Result) {
 				}
 			}
 		}
-		ops = append(ops, "3", wStr(rq.URI), wBool(rq.Canceled), wBool(bodyOnce), wStrs(hints))
+		raw := rq.URI
+		if abs {
+			raw = rq.Scheme + "://" + rq.Host + rq.URI
+		}
+		pathq := rq.URI // path and query as the upstream is asked for them when no rule fires
+		if abs && !strings.HasPrefix(pathq, "/") {
+			pathq = "/" + pathq
+		}
+		ops = append(ops, "3", wStr(raw), wStr(pathq), wBool(rq.Canceled), wBool(bodyOnce),
+			wBool(rq.WS), wBool(hijackable), wBool(rq.Skip), wInt(len(rq.ProvErr)))
+		for _, x := range rq.ProvErr {
+			switch {
+			case x == 0:
+				ops = append(ops, "0")
+			case x < 0:
+				ops = append(ops, "1", "0")
+			default:
+				ops = append(ops, "1", wInt(x))
+			}
+		}
+		ops = append(ops, wStrs(hints))
 		f16 = bodyOnce && len(picks) >= 2
 
-		// observation
-		o := []string{wInt(len(picks))}
-		for _, t := range picks {
-			o = append(o, c19EncPick(sh, t))
-		}
-		lastNil := len(picks) > 0 && picks[len(picks)-1] == nil
-		switch {
-		case panicked != nil:
-			o = append(o, "4", wStr(""))
-		case rr.Header().Get(c19Marker) != "":
-			u := ""
-			if len(hits) > 0 {
-				u = hits[len(hits)-1].uri
+		skipped := skipper && rq.Skip
+		relayed := panicked == nil && rr.Header().Get(c19Marker) != ""
+		// class of the error the request ended with: what a custom ErrorHandler was given, else what
+		// the default one shows the client (HTTPError code; 500 for any other error)
+		endErr := 0
+		if panicked == nil && !relayed {
+			switch {
+			case len(hcalls) > 0:
+				endErr = hcalls[len(hcalls)-1].err
+			case rr.Code == http.StatusInternalServerError:
+				endErr = -1
+			default:
+				endErr = rr.Code
 			}
-			o = append(o, "1", wStr(u))
-		case rr.Code == middleware.StatusCodeContextCanceled:
-			o = append(o, "3", wStr(""))
-		case rr.Code == http.StatusBadGateway && lastNil:
-			o = append(o, "0", wStr(""))
-		case rr.Code == http.StatusBadGateway:
-			o = append(o, "2", wStr(""))
-		default:
-			o = append(o, fmt.Sprintf("9%d", rr.Code), wStr(""))
 		}
-		obs = append(obs, o...)
+
+		// observation
+		// what a skipped request falls through to: the catch-all route, or echo's 404 for a path-less target
+		fellThrough := panicked == nil && (nextN == 1 && rr.Code == 299 || nextN == 0 && !strings.HasPrefix(rq.URI, "/") && rr.Code == http.StatusNotFound)
+		if skipped && len(picks) == 0 && !relayed && fellThrough {
+			obs = append(obs, "5")
+		} else {
+			o := []string{wInt(len(picks))}
+			for _, t := range picks {
+				o = append(o, c19EncPick(sh, t))
+			}
+			switch {
+			case panicked != nil:
+				o = append(o, "4", wStr(""))
+			case relayed:
+				u := ""
+				if len(hits) > 0 {
+					u = hits[len(hits)-1].uri
+				}
+				o = append(o, "1", wStr(u))
+			default:
+				o = append(o, "2", c19EncErr(endErr), wStr(""))
+			}
+			if filter != nil {
+				o = append(o, "1", wInt(len(fcalls)))
+				for _, f := range fcalls {
+					o = append(o, c19EncErr(f.err))
+				}
+			} else {
+				o = append(o, "0")
+			}
+			obs = append(obs, o...)
+		}
 
 		// ---- model-free oracle: the property itself on what was observed
+		if d, ok := panicked.(c19Dropped); ok {
+			fail(i, fmt.Sprintf("websocket request over %d picks: %s; every request must be answered (by a live target, else 502)", len(picks), string(d)))
+			tagset["e2e-dropped"] = true
+			continue
+		}
 		if panicked != nil {
 			fail(i, fmt.Sprintf("panic while proxying (%d current targets): %v", len(sh.cur), panicked))
 			tagset["e2e-panic"] = true
 			continue
 		}
-		if (len(picks) < 1 && c.Kind != 3) || len(picks) > retry+1 { // kind 3: a rewrite error answers before any attempt
-			fail(i, fmt.Sprintf("%d attempts with RetryCount %d", len(picks), c.Retry))
+		if rq.WS {
+			tagset["e2e-websocket"] = true
 		}
+		if abs {
+			tagset["e2e-absolute-form"] = true
+		}
+		if skipped {
+			// Skipper: the request is none of the proxy's business
+			tagset["e2e-skipped"] = true
+			if len(picks) > 0 || provN > 0 {
+				fail(i, "a skipped request consulted the balancer")
+			}
+			if len(hits) > 0 || relayed {
+				fail(i, "a skipped request reached an upstream")
+			}
+			if !fellThrough {
+				fail(i, fmt.Sprintf("a skipped request must be answered by the next handler (called %d times, client got %d)", nextN, rr.Code))
+			}
+			continue
+		}
+		if nextN > 0 {
+			fail(i, "the handler behind the proxy middleware ran for a request that was not skipped")
+		}
+		// TargetProvider script: index of the first NextTarget call that answers an error
+		provAt := -1
+		if c.Provider {
+			for k, x := range rq.ProvErr {
+				if x != 0 {
+					provAt = k
+					break
+				}
+			}
+		}
+		provEnded := provAt >= 0 && provN == provAt+1 && len(picks) == provAt
+		if c.Provider {
+			tagset["e2e-provider"] = true
+			if provAt >= 0 && len(picks) > provAt {
+				fail(i, fmt.Sprintf("NextTarget call %d answered an error and the proxy went on to attempt %d", provAt, len(picks)))
+			}
+			if provEnded {
+				tagset["e2e-provider-error"] = true
+				want := rq.ProvErr[provAt]
+				if endErr != want {
+					fail(i, fmt.Sprintf("the TargetProvider's error (class %d) was not what the request ended with (class %d)", want, endErr))
+				}
+			}
+		}
+		if (len(picks) < 1 && c.Kind != 3 && !provEnded) || len(picks) > retry+1 { // kind 3: a rewrite error answers before any attempt
+			fail(i, fmt.Sprintf("%d attempts with RetryCount %d", len(picks), retry))
+		}
+		wsArtefact := rq.WS && !hijackable // a ResponseRecorder cannot be hijacked: no tunnel, whatever the target
 		allDead := true
 		for k, t := range picks {
 			if t == nil {
@@ -456,7 +933,7 @@ func c19RunE2E(c *c19Case) (res Result) {
 			if !sh.member(t) {
 				fail(i, fmt.Sprintf("attempt %d used %q which is not a current target", k, t.Name))
 			}
-			if alive(sh.id[t].URL) {
+			if alive(sh.id[t].URL) && !wsArtefact {
 				allDead = false
 				if k != len(picks)-1 && !rq.Canceled && k == 0 {
 					fail(i, fmt.Sprintf("attempt 0 reached the live target %q and the request was attempted again", t.Name))
@@ -484,6 +961,89 @@ func c19RunE2E(c *c19Case) (res Result) {
 				nontrivial = true
 			}
 		}
+		lastNil := len(picks) > 0 && picks[len(picks)-1] == nil
+		var lastPick *middleware.ProxyTarget // what ContextKey must hold: the last target handed to an attempt
+		for _, t := range picks {
+			if t != nil {
+				lastPick = t
+			}
+		}
+		// ---- RetryFilter / ErrorHandler / ContextKey contracts (ProxyConfig documentation)
+		rewriteFailed := c.Kind == 3 && len(picks) == 0 // the rewritten string did not parse: answered before any attempt
+		if rewriteFailed {
+			// nothing to check here
+		} else if filter != nil {
+			tagset["e2e-custom-filter"] = true
+			if len(fcalls) > retry {
+				fail(i, fmt.Sprintf("RetryFilter was called %d times with RetryCount %d", len(fcalls), retry))
+			}
+			trues := 0
+			for j, f := range fcalls {
+				if f.npicks != j+1 {
+					fail(i, fmt.Sprintf("RetryFilter call %d came after %d attempts", j, f.npicks))
+				}
+				if j < len(picks) && picks[j] != nil && f.key != any(picks[j]) {
+					fail(i, fmt.Sprintf("RetryFilter call %d: context key %q does not hold the target of the failed attempt", j, key))
+				}
+				if f.answer {
+					trues++
+				} else if j != len(fcalls)-1 || len(picks) != j+1 {
+					fail(i, fmt.Sprintf("RetryFilter answered false at call %d and the request was attempted again", j))
+				}
+			}
+			if !provEnded && !lastNil && len(picks) != trues+1 {
+				fail(i, fmt.Sprintf("RetryFilter allowed %d retries, the request was attempted %d times", trues, len(picks)))
+			}
+			if !relayed && !provEnded && !lastNil && len(picks) < retry+1 && (len(fcalls) == 0 || fcalls[len(fcalls)-1].answer) {
+				fail(i, fmt.Sprintf("the request failed after %d of %d allowed attempts although the RetryFilter never declined a retry", len(picks), retry+1))
+			}
+		} else if !relayed && !provEnded && !lastNil && endErr == http.StatusBadGateway && len(picks) != retry+1 {
+			// default RetryFilter: every 502 is retried while retries are left, whatever the request
+			fail(i, fmt.Sprintf("the client got 502 after %d attempt(s) although RetryCount %d allows %d: an unreachable target must be retried (%s request)", len(picks), retry, retry+1, rq.Method))
+		}
+		if handler != 0 {
+			tagset["e2e-custom-handler"] = true
+			switch {
+			case relayed && len(hcalls) > 0:
+				fail(i, "ErrorHandler was called although an upstream answer was relayed")
+			case !relayed && len(hcalls) != 1 && c.Kind != 3:
+				fail(i, fmt.Sprintf("ErrorHandler was called %d times for a request that failed", len(hcalls)))
+			case !relayed && len(hcalls) == 1:
+				if hcalls[0].npicks != len(picks) {
+					fail(i, "ErrorHandler was called before the last attempt")
+				}
+				want := handler
+				if handler < 0 {
+					want = http.StatusNonAuthoritativeInfo
+				}
+				if rr.Code != want {
+					fail(i, fmt.Sprintf("the ErrorHandler's answer %d reached the client as %d", want, rr.Code))
+				}
+			}
+		}
+		if keySeen && lastPick != nil && keyAfter != any(lastPick) {
+			fail(i, fmt.Sprintf("context key %q does not hold the selected target %q after the request", key, lastPick.Name))
+		}
+		if !keySeen {
+			fail(i, "the proxy middleware did not return")
+		}
+
+		if !viaProxy && c.Transport == 2 && !rq.WS {
+			// one round trip per attempt, addressed to the target of that attempt
+			tagset["e2e-transport-logged"] = true
+			var wantTrips []string
+			for _, t := range picks {
+				if t != nil {
+					wantTrips = append(wantTrips, t.URL.Host)
+				}
+			}
+			if !c19SameVals(trips, wantTrips) {
+				fail(i, fmt.Sprintf("the attempts selected %q, the configured Transport was asked for %q", wantTrips, trips))
+			}
+		}
+		if inst == 1 {
+			tagset["e2e-second-instance"] = true
+		}
 		if len(hits) > 1 {
 			fail(i, fmt.Sprintf("%d upstream servers/requests were hit by one client request", len(hits)))
 		}
@@ -498,9 +1058,15 @@ func c19RunE2E(c *c19Case) (res Result) {
 			if !allDead {
 				failRetryBody(i, fmt.Sprintf("client got %d and no upstream was reached although an attempted target was alive", rr.Code))
 			}
-			if rr.Code == http.StatusBadGateway {
+			if relayed {
+				fail(i, "the client got an upstream answer although no upstream logged the request")
+			}
+			switch {
+			case handler != 0 || provEnded || wsArtefact || c.Kind == 3:
+				// the client sees what the configured handler / the provider's error says
+			case rr.Code == http.StatusBadGateway:
 				tagset["e2e-502"] = true
-			} else if c.Kind != 3 {
+			default:
 				fail(i, fmt.Sprintf("every attempt failed and the client got %d, not 502", rr.Code))
 			}
 			if len(sh.cur) == 0 {
@@ -528,48 +1094,79 @@ func c19RunE2E(c *c19Case) (res Result) {
 		if h.method != rq.Method {
 			fail(i, fmt.Sprintf("method %q arrived as %q", rq.Method, h.method))
 		}
-		if len(rq.Want) > 0 {
+		wants := rq.Want
+		if viaProxy { // no rewrite rules in force
+			wants = []string{pathq}
+		}
+		if len(wants) > 0 {
 			ok := false
-			for _, w := range rq.Want {
+			for _, w := range wants {
 				if w == h.uri {
 					ok = true
 				}
 			}
 			if !ok {
 				gp, gq, _ := strings.Cut(h.uri, "?")
-				wp, wq, _ := strings.Cut(rq.Want[0], "?")
-				if len(rq.Want) == 1 && gp == wp && gq != wq {
-					fail(i, fmt.Sprintf("raw query not intact: request target %q must reach the upstream with query %q, it arrived with %q", rq.URI, wq, gq))
+				wp, wq, _ := strings.Cut(wants[0], "?")
+				if len(wants) == 1 && gp == wp && gq != wq {
+					fail(i, fmt.Sprintf("raw query not intact: request target %q must reach the upstream with query %q, it arrived with %q", raw, wq, gq))
 				} else {
-					fail(i, fmt.Sprintf("request target %q with rules %v arrived as %q, expected %q", rq.URI, c.Rules, h.uri, rq.Want))
+					fail(i, fmt.Sprintf("request target %q with rules %v arrived as %q, expected %q", raw, rules, h.uri, wants))
 				}
 			}
-			if h.uri != rq.URI {
+			if h.uri != pathq {
 				tagset["e2e-rewritten"] = true
 				nontrivial = true
 			}
 		}
-		if len(rq.Want) == 0 && len(c.Rules) == 0 {
-			if h.uri != rq.URI {
-				fail(i, fmt.Sprintf("request target %q (no rewrite rules) arrived as %q", rq.URI, h.uri))
+		if len(wants) == 0 && len(rules) == 0 {
+			if h.uri != pathq {
+				fail(i, fmt.Sprintf("request target %q (no rewrite rules) arrived as %q", raw, h.uri))
 			}
 		}
 		if !bytes.Equal(h.body, rq.Body) {
 			fail(i, fmt.Sprintf("body of %d bytes arrived as %d bytes (or altered)", len(rq.Body), len(h.body)))
 		}
-		for k, vs := range c19EndToEnd(rq.Headers) {
-			if k == "X-Forwarded-For" { // extended by the reverse proxy by design
+		for k, vs := range c19EndToEnd(hdrs) {
+			if k == "X-Forwarded-For" && !rq.WS { // extended by the reverse proxy by design
 				continue
 			}
 			if !c19SameVals(h.header.Values(k), vs) {
 				fail(i, fmt.Sprintf("end-to-end request header %s: %q arrived as %q", k, vs, h.header.Values(k)))
 			}
 		}
-		if !c19Has(rq.Headers, "X-Forwarded-Proto") && h.header.Get("X-Forwarded-Proto") != "http" {
+		proto := "http"
+		if abs && rq.Scheme == "https" && c.Kind != 5 {
+			proto = "https" // httptest.NewRequest marks such a request as received over TLS
+		}
+		if !c19Has(rq.Headers, "X-Forwarded-Proto") && h.header.Get("X-Forwarded-Proto") != proto {
 			fail(i, fmt.Sprintf("X-Forwarded-Proto arrived as %q", h.header.Get("X-Forwarded-Proto")))
 		}
 		if !c19Has(rq.Headers, "X-Real-Ip") && h.header.Get("X-Real-Ip") == "" {
 			fail(i, "X-Real-Ip not set for the upstream")
+		}
+		if rq.WS {
+			// the tunnel: the upgrade headers must arrive (they are what makes the upstream switch
+			// protocols), the 101 and everything after it passes through byte for byte
+			if !h.ws || !strings.EqualFold(h.header.Get("Upgrade"), "websocket") || !strings.EqualFold(h.header.Get("Connection"), "upgrade") {
+				fail(i, "the upgrade headers did not reach the upstream")
+			}
+			if !c19Has(rq.Headers, "X-Forwarded-For") && h.header.Get("X-Forwarded-For") == "" {
+				fail(i, "X-Forwarded-For not set for the upstream of a websocket request")
+			}
+			if rr.Code != http.StatusSwitchingProtocols {
+				fail(i, fmt.Sprintf("the upstream's 101 reached the client as %d", rr.Code))
+			}
+			if !bytes.Equal(rr.Body.Bytes(), rq.Resp.Body) {
+				fail(i, fmt.Sprintf("the upstream sent %d bytes through the tunnel, the client received %d (or altered)", len(rq.Resp.Body), rr.Body.Len()))
+			}
+			for k, vs := range c19EndToEnd(rq.Resp.Headers) {
+				if !c19SameVals(rr.Header().Values(k), vs) {
+					fail(i, fmt.Sprintf("upstream response header %s: %q relayed as %q", k, vs, rr.Header().Values(k)))
+				}
+			}
+			tagset["e2e-websocket-tunnel"] = true
+			continue
 		}
 		// response fidelity
 		if rr.Code != rq.Resp.Status {
@@ -602,6 +1199,12 @@ func c19RunE2E(c *c19Case) (res Result) {
 		tags = append(tags, "e2e-rr")
 	} else {
 		tags = append(tags, "e2e-random")
+	}
+	if viaProxy {
+		tags = append(tags, "e2e-ctor-Proxy")
+	}
+	if c.RegexCfg && len(rules) > 1 {
+		tags = append(tags, "e2e-RegexRewrite+Rewrite")
 	}
 	onlyF16 := len(fails) > 0
 	for _, f := range fails {
@@ -798,7 +1401,7 @@ func c19GenRule(r *rand.Rand, j int) c19RuleGen {
 	}
 }
 
-var c19Methods = []string{"GET", "GET", "GET", "POST", "PUT", "DELETE", "PATCH", "HEAD", "OPTIONS"}
+var c19Methods = []string{"GET", "GET", "GET", "POST", "POST", "PUT", "DELETE", "PATCH", "HEAD", "OPTIONS", "PROPFIND"}
 
 func c19GenBytes(r *rand.Rand, tier string) []byte {
 	var n int
@@ -913,6 +1516,34 @@ func c19GenE2E(r *rand.Rand, tier string, weird bool) *c19Case {
 			c.Rules = []c19Rule{{"^/c^d/*", "/never/$1"}, {"/c^d/*", "/caret/$1"}}
 		}
 	}
+	// configuration surface: convenience constructor, TargetProvider balancer, custom RetryFilter /
+	// ErrorHandler / Skipper, ContextKey, rules handed over as RegexRewrite
+	if !weird && r.Intn(8) == 0 {
+		c.Ctor = 1 // middleware.Proxy(balancer): DefaultProxyConfig is in force
+		c.Retry, c.Rules, gens = 0, nil, nil
+	} else {
+		switch r.Intn(3) {
+		case 0:
+			f := &c19Filter{Kind: 1, Rest: r.Intn(2) == 0}
+			for n := r.Intn(4); n > 0; n-- {
+				f.Answers = append(f.Answers, r.Intn(3) != 0)
+			}
+			c.Filter = f
+		case 1:
+			if r.Intn(2) == 0 {
+				c.Filter = &c19Filter{Kind: 2, Codes: [][]int{{502}, {502, 499}, {499}, nil, {503, 502}}[r.Intn(5)]}
+			}
+		}
+		if r.Intn(4) == 0 {
+			c.Handler = []int{503, 418, 502, -1}[r.Intn(4)]
+		}
+		c.Skipper = r.Intn(4) == 0
+		c.CtxKey = []string{"", "target", "c19-key"}[r.Intn(3)]
+		c.RegexCfg = r.Intn(3) == 0
+		c.Transport = []int{0, 0, 1, 2}[r.Intn(4)]
+	}
+	c.TwoInst = r.Intn(4) == 0
+	c.Provider = r.Intn(4) == 0
 	nS := 1 + r.Intn(10)
 	if tier == "thorough" && r.Intn(5) == 0 {
 		nS = 10 + r.Intn(30)
@@ -963,6 +1594,43 @@ func c19GenE2E(r *rand.Rand, tier string, weird bool) *c19Case {
 				}
 				rq.URI, rq.Want = u, []string{u}
 			}
+			if c.Skipper && r.Intn(3) == 0 || r.Intn(25) == 0 {
+				rq.Skip = true // without a configured Skipper the header is an ordinary end-to-end header
+			}
+			if c.Provider && r.Intn(4) == 0 {
+				for k := r.Intn(3); k > 0; k-- {
+					rq.ProvErr = append(rq.ProvErr, 0)
+				}
+				rq.ProvErr = append(rq.ProvErr, []int{503, 502, 429, -1}[r.Intn(4)])
+			}
+			if !weird && r.Intn(6) == 0 {
+				// request target in absolute form
+				rq.Scheme = []string{"http", "http", "https"}[r.Intn(3)]
+				rq.Host = []string{"ex.test", "EX.test:8080", "127.0.0.1:80", "[::1]:9", "a-b.c", "api"}[r.Intn(6)]
+				if r.Intn(8) == 0 {
+					// no path at all: `GET http://host HTTP/1.1`, `GET http://host?x=1 HTTP/1.1` (the upstream is asked for `/`)
+					rq.URI = []string{"", "?x=1", "?"}[r.Intn(3)]
+					rq.Want, rq.Rule = []string{"/" + rq.URI}, 0
+				}
+				if r.Intn(4) == 0 {
+					// legal but unusual: scheme not in lower case (RFC 3986 3.1), userinfo in the authority
+					switch r.Intn(3) {
+					case 0:
+						rq.Scheme = []string{"HTTP", "Http", "hTTps"}[r.Intn(3)]
+					case 1:
+						rq.Host = []string{"u@", "u:p@", "%41:@"}[r.Intn(3)] + rq.Host
+					default:
+						rq.Scheme, rq.Host = "HTTP", "U@"+rq.Host
+					}
+				}
+			}
+			if !weird && r.Intn(30) == 0 {
+				// websocket upgrade (through e.ServeHTTP the response writer cannot be hijacked)
+				rq.WS, rq.Method, rq.Body = true, "GET", nil
+			}
+			if c.TwoInst && r.Intn(2) == 0 {
+				rq.Inst = 1
+			}
 			c.Steps = append(c.Steps, c19Step{K: 3, Req: rq})
 		}
 	}
@@ -1010,6 +1678,23 @@ func c19ShrinkE2E(c *c19Case) []any {
 			out = append(out, &d)
 		}
 	}
+	// drop configuration
+	for _, v := range []func(d *c19Case) bool{
+		func(d *c19Case) bool { ok := d.Provider; d.Provider = false; return ok },
+		func(d *c19Case) bool { ok := d.Filter != nil; d.Filter = nil; return ok },
+		func(d *c19Case) bool { ok := d.Handler != 0; d.Handler = 0; return ok },
+		func(d *c19Case) bool { ok := d.Skipper; d.Skipper = false; return ok },
+		func(d *c19Case) bool { ok := d.CtxKey != ""; d.CtxKey = ""; return ok },
+		func(d *c19Case) bool { ok := d.RegexCfg; d.RegexCfg = false; return ok },
+		func(d *c19Case) bool { ok := d.Transport != 0; d.Transport = 0; return ok },
+		func(d *c19Case) bool { ok := d.TwoInst; d.TwoInst = false; return ok },
+		func(d *c19Case) bool { ok := d.Ctor != 0 && len(d.Rules) == 0; d.Ctor = 0; return ok },
+	} {
+		d := *c
+		if v(&d) {
+			out = append(out, &d)
+		}
+	}
 	// simplify single requests: drop headers, bodies, response decoration
 	for i, st := range c.Steps {
 		if st.Req == nil {
@@ -1026,6 +1711,14 @@ func c19ShrinkE2E(c *c19Case) []any {
 			},
 			func(q *c19Req) bool { ok := q.Method != "GET" && len(q.Body) == 0; q.Method = "GET"; return ok },
 			func(q *c19Req) bool { ok := q.Resp.Status != 200; q.Resp.Status = 200; return ok },
+			func(q *c19Req) bool {
+				ok := q.Host != "" && strings.HasPrefix(q.URI, "/") // a path-less target exists in absolute form only
+				q.Host, q.Scheme = "", ""
+				return ok
+			},
+			func(q *c19Req) bool { ok := q.WS; q.WS = false; return ok },
+			func(q *c19Req) bool { ok := q.Skip; q.Skip = false; return ok },
+			func(q *c19Req) bool { ok := len(q.ProvErr) > 0; q.ProvErr = nil; return ok },
 		}
 		for _, v := range variants {
 			q := *st.Req
